@@ -27,13 +27,13 @@ ASSUMPTIONS = ['order between the invariant blocks of different active states is
                'conditions are side-effect free apart from the probe']
 KINDS = ['state.pre', 'state.post', 'state.inv', 'trans.pre', 'trans.inv_before', 'trans.post', 'trans.inv_after',
          'state.inv_on_none_step']
-REQUIRED_COUNTERS = ['environment_cases', 'old_readings_after_environment_change', 'empty_context_cases', 'runs_with_second_live_interpreter', 'text_collision_steps', 'grammar_steps_checked', 'faults_injected', 'old_values_checked'] + ['fault_' + k for k in KINDS]
+REQUIRED_COUNTERS = ['sent_predicate_readings_checked', 'environment_cases', 'old_readings_after_environment_change', 'empty_context_cases', 'runs_with_second_live_interpreter', 'text_collision_steps', 'grammar_steps_checked', 'faults_injected', 'old_values_checked'] + ['fault_' + k for k in KINDS]
 TIERS = dict(quick=dict(steps=25, faults=25, gen=dict(max_states=10, max_depth=4, max_trans=12)),
              thorough=dict(steps=45, faults=400, gen=dict(max_states=16, max_depth=5, max_trans=20)))
 
 
 def plan(tier):
-    return dict(cases=1280 if tier == 'quick' else 8000, shards=16, timeout=900 if tier == 'quick' else 3600)
+    return dict(cases=1280 if tier == 'quick' else 6000, shards=16, timeout=900 if tier == 'quick' else 3600)
 
 
 class Box:
@@ -93,6 +93,9 @@ class VCoder(build.Coder):
         if kind == 'inv' and not owner_is_transition and h % 2 == 0:
             # sent(name): "an event with that name was sent during the current step" - impossible when no code ran
             act += ' and (not sent(%r) or W())' % ch['events'][h % len(ch['events'])]
+        elif kind == 'inv' and not owner_is_transition:
+            # what sent() answers at the end of a step is recorded and compared with the events listed in the MacroStep
+            act += " and S(%r, sent('m0'), sent('m1'), sent(%r))" % (cid, ch['events'][h % len(ch['events'])])
         return 'K(%r, time, (__old__.v, __old__.box.n, len(__old__.lst)))%s' % (cid, act)
 
 
@@ -372,6 +375,15 @@ def env_case(acc, rnd):
             for ms in step.steps:
                 for s_ in ms.entered_states:
                     entered_at[s_] = T
+        # at the end of every call - also one that did nothing, also when the clock has not moved - the invariants of every
+        # active state are evaluated, once each
+        got_inv = sorted(c for c, _o, _n in ENV_LOG if c.split('/')[1].startswith('inv'))
+        want_inv = sorted('%s/inv%d' % (n, j) for n in it.configuration if n in names for j in range(len(sc.state_for(n).invariants)))
+        acc.count('end_of_step_invariant_sets_checked')
+        if got_inv != want_inv:
+            acc.violation('C08:invariants-not-evaluated', 'call %d (%s): state invariants evaluated %r, the active states %r have %r'
+                          % (i, 'returned a step' if step is not None else 'returned None', got_inv, list(it.configuration), want_inv), wit)
+            return
         for cid, old_n, cur_n in ENV_LOG:
             owner, kind = cid.split('/')
             if kind.startswith('inv'):
@@ -454,6 +466,18 @@ def run_case(acc, rnd, tier, case):
         if it.context.get('v') != vstate['v']:
             acc.violation('C08:trace-grammar', 'step %d: v=%r, fragments run=%r' % (k, it.context.get('v'), vstate['v']), wit)
             return
+        sent_names = {e.name for e in r.last_step.sent_events} if r.last_step is not None else set()
+        for e in pr.log:
+            if e[0] == 'S':
+                import zlib
+                evn = ch['events'][zlib.crc32(e[1].encode()) % len(ch['events'])]
+                want = ('m0' in sent_names, 'm1' in sent_names, evn in sent_names)
+                acc.count('sent_predicate_readings_checked')
+                if tuple(e[2:5]) != want:
+                    acc.violation('C08:sent-predicate-wrong', "step %d: invariant %s read sent('m0'), sent('m1'), sent(%r) = %r; the "
+                                  'MacroStep lists %r as sent (send and notify alike)' % (k, e[1], evn, tuple(e[2:5]), sorted(sent_names)),
+                                  dict(wit, step=k))
+                    return
         occs.extend((i, cid, kt, k) for (i, cid, kt) in occ)
         k += 1
     nsteps_ok = k
